@@ -346,7 +346,7 @@ def main():
     sd = seed()
     rep = Report(prop)
     proof_ok, pinfo = coqcheck.proof_status(prop)
-    ntr, nops = (6000, 90) if thorough else (420, 60)
+    ntr, nops = (160000, 90) if thorough else (420, 60)
     results = []
     if pinfo.get('build_ok'):
         nproc = min(16, os.cpu_count() or 4)
